@@ -3,6 +3,7 @@ package checks
 import (
 	"fmt"
 	"go/token"
+	"os"
 	"go/types"
 	"sort"
 	"strings"
@@ -837,7 +838,7 @@ func isEmptyComments(v ssa.Value) bool {
 }
 
 func runC15(c *core.Ctx) {
-	c.Explanation = "Comment-slot coverage between parser (writer) and formatter (reader), decided on SSA: every site where the parser places comments — SwapLeadingTrailing/SwapLeadingInfix, stores to Meta.Leading/Trailing/Infix or to other ast.Comments fields of a node, and the implicit Leading of a node built from the token window — is resolved to an owner (node kind, or child reached through one field of the node under construction) and a slot. The formatter side is an inter-procedural summary (fixpoint over formatter and the ast renderers it calls statically) of which slots of which parameter-rooted access paths are read, with type-switch arms narrowing interface-typed roots. Obligation: every (owner, slot) the parser fills is read by some printer; a slot nobody reads loses every comment written there (including #FASTLY macros and falco-ignore annotations). Also formatComment emits every element of its argument."
+	c.Explanation = "Comment-slot coverage between parser (writer) and formatter (reader), decided on SSA: every site where the parser places comments — SwapLeadingTrailing/SwapLeadingInfix, stores to Meta.Leading/Trailing/Infix or to other ast.Comments fields of a node, and the implicit Leading of a node built from the token window — is resolved to an owner (node kind, or child reached through one field of the node under construction) and a slot. The formatter side is an inter-procedural summary (fixpoint over formatter and the ast renderers it calls statically) of which slots of which parameter-rooted access paths are read, with type-switch arms narrowing interface-typed roots. Obligation: every (owner, slot) the parser fills is read by some printer; a slot nobody reads loses every comment written there (including #FASTLY macros and falco-ignore annotations). Also formatComment emits every element of its argument. Parser side (cmt.token): every p.NextToken / successful p.ExpectPeek in a Parser method is an obligation - before the window advances again or the method returns without error, the comments in front of the new current token are moved by a Swap*(p.curToken, …), were moved while it was the peek token, are read explicitly, or the token becomes the Meta of a node / the start of a sub-parser; a return hands the obligation to the static callers. cmt.overwrite: a slot is not assigned twice on one path without a read between; cmt.dropnode: a parsed node that carries comments is stored into the tree; cmt.destructure: a printer that flattens an expression node reads its slots."
 	c.NotCovered = []string{"relative order of comments as a value property", "that the printed position re-parses into the same slot", "comments of tokens the parser consumes without transferring them (parser-side typestate, not attempted)", "owners resolved only by static type (~U) are matched weakly: any reader of that type and slot"}
 	prog := c.Prog
 	u := newAstUniverse(prog)
@@ -1008,6 +1009,11 @@ func runC15(c *core.Ctx) {
 	}
 	ws := a.writers()
 	sort.Slice(ws, func(i, j int) bool { return ws[i].pos < ws[j].pos })
+	if os.Getenv("FV_C15_OWNERS") != "" {
+		for _, w := range ws {
+			fmt.Fprintf(os.Stderr, "OWNER %s|%s  (%s)\n", w.owner, w.slot, core.FnName(w.fn))
+		}
+	}
 	seenKey := map[string]bool{}
 	weak := 0
 	for _, w := range ws {
@@ -1088,6 +1094,41 @@ func runC15(c *core.Ctx) {
 		}
 	}
 	c.Extra("printers_checked_for_config_dependence", nCfg)
+	if os.Getenv("FV_C15_MUST") != "" {
+		for _, fn := range a.funcs {
+			if fn.Pkg == nil || fn.Pkg.Pkg.Path() != core.ModPath+"/formatter" {
+				continue
+			}
+			for _, e := range a.dataDependentMisses(fn) {
+				pname := "?"
+				if e.param < len(fn.Params) {
+					pname = fn.Params[e.param].Name()
+				}
+				fmt.Fprintf(os.Stderr, "MUST %s: %s%s.%s\n", core.FnName(fn), pname, e.path, e.slot)
+			}
+		}
+	}
+	// ---- cmt.overwrite: the parser does not overwrite a comment slot it has just filled
+	checkSlotOverwrite(c)
+	// ---- cmt.destructure: a printer that takes an expression node apart reads the node's own comments too
+	// (decided for expression kinds, where the Pratt loop can hang a Trailing on any node; statement and declaration
+	// kinds print their own comments in callers of too many shapes to be matched exactly and are left to cmt.slots)
+	nDestr := 0
+	for _, l := range a.destructureMisses(ws) {
+		if !strings.Contains(l, "Expression apart") {
+			continue
+		}
+		nDestr++
+		key := strings.SplitN(l, " but ", 2)[0]
+		c.Report("cmt.destructure", key, token.NoPos, l+": when the node is flattened like this, a comment attached to it (the Pratt loop hangs the comments in front of an operator on the expression to its left) is dropped")
+	}
+	if nDestr == 0 {
+		c.Discharge("cmt.destructure", "formatter", token.NoPos, "every printer that takes an expression node apart reads that node's comment slots, or all its callers do")
+	}
+	// ---- cmt.token: comments in front of a consumed token are moved to a node
+	listUnswappedTokens(c)
+	// ---- cmt.dropnode: a parsed node that carries comments is not thrown away for one of its children
+	checkDroppedNodes(c)
 	// ---- cmt.macro: #FASTLY macro comments are exempt from the comment-style rewrite
 	if fc := prog.SSAFunc("formatter", "Formatter.formatComment"); fc != nil {
 		nConv := 0
@@ -1320,6 +1361,649 @@ func tokenLeadingDrained(fn *ssa.Function, store *ssa.Store, tokenField string) 
 		if clean {
 			return true
 		}
+	}
+	return false
+}
+
+// dataDependentMisses: like configDependentMisses, but every branch is adversarial except those that test the
+// presence of (a prefix of) the very node the slot belongs to, the emptiness of a comment list, or a loop bound.
+func (a *cmtAnalysis) dataDependentMisses(fn *ssa.Function) []slotEntry {
+	sum := a.summaries[fn]
+	if len(sum) == 0 || len(fn.Blocks) == 0 {
+		return nil
+	}
+	reads := map[slotEntry]map[*ssa.BasicBlock]bool{}
+	for _, b := range fn.Blocks {
+		for _, in := range b.Instrs {
+			for _, ds := range a.instrReads(fn, b, in) {
+				if e, ok := a.entryOf(fn, ds.d, ds.slot); ok {
+					if reads[e] == nil {
+						reads[e] = map[*ssa.BasicBlock]bool{}
+					}
+					reads[e][b] = true
+				}
+			}
+		}
+	}
+	headers := map[*ssa.BasicBlock]bool{}
+	for _, l := range naturalLoops(fn) {
+		headers[l.header] = true
+	}
+	var out []slotEntry
+	for e, rb := range reads {
+		favourable := func(b *ssa.BasicBlock) bool {
+			if headers[b] {
+				return true
+			}
+			cond := core.BranchCond(b)
+			if cond == nil {
+				return true
+			}
+			// nil / type tests and length tests: the data decides in favour of the path that has something to print
+			for x := range core.BackSlice(cond) {
+				switch t := x.(type) {
+				case *ssa.TypeAssert:
+					return true
+				case *ssa.Call:
+					if bi, ok := t.Common().Value.(*ssa.Builtin); ok && bi.Name() == "len" {
+						return true
+					}
+				case *ssa.Const:
+					if t.Value == nil {
+						return true // comparison with nil
+					}
+				}
+			}
+			return false
+		}
+		g := map[*ssa.BasicBlock]bool{}
+		for changed := true; changed; {
+			changed = false
+			for _, b := range fn.Blocks {
+				if g[b] {
+					continue
+				}
+				v := false
+				switch {
+				case rb[b]:
+					v = true
+				case len(b.Succs) == 0:
+					v = false
+				case len(b.Succs) == 2 && !favourable(b):
+					v = g[b.Succs[0]] && g[b.Succs[1]]
+				default:
+					for _, s := range b.Succs {
+						if g[s] {
+							v = true
+						}
+					}
+				}
+				if v {
+					g[b] = true
+					changed = true
+				}
+			}
+		}
+		if !g[fn.Blocks[0]] {
+			out = append(out, e)
+		}
+	}
+	return out
+}
+
+// checkSlotOverwrite (cmt.overwrite): SwapLeadingTrailing / SwapLeadingInfix move the comments in front of the current
+// token into a slot of a node. A later plain store into the same slot of the same node (for example
+// `stmt.Trailing = p.Trailing()`) that does not build on the slot's content throws those comments away.
+func checkSlotOverwrite(c *core.Ctx) {
+	prog := c.Prog
+	n := 0
+	for _, fn := range prog.ModuleFuncs("parser") {
+		type fill struct {
+			in   ssa.Instruction
+			root ssa.Value
+			path string
+			slot string
+		}
+		var fills []fill
+		for _, b := range fn.Blocks {
+			for _, in := range b.Instrs {
+				call, ok := in.(*ssa.Call)
+				if !ok {
+					continue
+				}
+				cal := call.Common().StaticCallee()
+				if cal == nil {
+					continue
+				}
+				slot := ""
+				switch cal.Name() {
+				case "SwapLeadingTrailing":
+					slot = "Trailing"
+				case "SwapLeadingInfix":
+					slot = "Infix"
+				default:
+					continue
+				}
+				root, path := chainOf(call.Common().Args[1])
+				fills = append(fills, fill{in, root, strings.Join(path, "."), slot})
+			}
+		}
+		if len(fills) == 0 {
+			continue
+		}
+		for _, b := range fn.Blocks {
+			for _, in := range b.Instrs {
+				st, ok := in.(*ssa.Store)
+				if !ok {
+					continue
+				}
+				fa, ok := st.Addr.(*ssa.FieldAddr)
+				if !ok || core.FieldOf(fa) == nil || core.FieldOwner(fa) != astPkgPath+".Meta" {
+					continue
+				}
+				slot := core.FieldOf(fa).Name()
+				root, path := chainOf(fa.X)
+				for _, f := range fills {
+					if f.slot != slot || f.root != root || f.path != strings.Join(path, ".") {
+						continue
+					}
+					// may the fill precede the store?
+					before := false
+					if f.in.Block() == b {
+						before = core.InstrDominates(f.in, in)
+					} else {
+						before = core.Reaches(f.in.Block(), b)
+					}
+					if !before {
+						continue
+					}
+					n++
+					// does the stored value build on the slot's content?
+					keeps := false
+					for x := range core.BackSlice(st.Val) {
+						if fa2, ok := x.(*ssa.FieldAddr); ok && core.FieldOf(fa2) == core.FieldOf(fa) {
+							keeps = true
+						}
+					}
+					key := fmt.Sprintf("%s|%s.%s", core.FnName(fn), f.path, slot)
+					if keeps {
+						c.Discharge("cmt.overwrite", key, in.Pos(), "the new value is built from the slot's content")
+					} else {
+						c.Report("cmt.overwrite", key, in.Pos(), fmt.Sprintf("%s moves the comments before the current token into %s.%s (%s) and then overwrites that slot with another value: the comments written there are dropped before the formatter ever sees them", core.FnName(fn), f.path, slot, prog.Loc(f.in.Pos())))
+					}
+				}
+			}
+		}
+	}
+	c.Extra("slot_fill_then_store_pairs", n)
+}
+
+// checkDroppedNodes (cmt.dropnode): every node a Parse* function returns carries, in its Meta, the comments written in
+// front of its first token. If the caller only takes children out of the node (`exp.Right`) and never stores, returns
+// or passes the node itself — nor reads its Meta to move the comments elsewhere — those comments are lost in the
+// parser.
+func checkDroppedNodes(c *core.Ctx) {
+	prog := c.Prog
+	n := 0
+	for _, fn := range prog.ModuleFuncs("parser") {
+		for _, b := range fn.Blocks {
+			for _, in := range b.Instrs {
+				call, ok := in.(*ssa.Call)
+				if !ok {
+					continue
+				}
+				cal := call.Common().StaticCallee()
+				if cal == nil || cal.Pkg == nil || !strings.HasSuffix(cal.Pkg.Pkg.Path(), "/parser") || !strings.HasPrefix(cal.Name(), "Parse") {
+					continue
+				}
+				// the node result (first result)
+				var node ssa.Value
+				if call.Common().Signature().Results().Len() == 1 {
+					node = call
+				} else if call.Referrers() != nil {
+					for _, r := range *call.Referrers() {
+						if ex, ok := r.(*ssa.Extract); ok && ex.Index == 0 {
+							node = ex
+						}
+					}
+				}
+				if node == nil || node.Referrers() == nil {
+					continue
+				}
+				pt, ok := node.Type().Underlying().(*types.Pointer)
+				if !ok || !strings.HasPrefix(core.NamedTypePkgName(pt.Elem()), astPkgPath+".") {
+					continue
+				}
+				kept, childOnly := false, 0
+				for _, r := range *node.Referrers() {
+					switch t := r.(type) {
+					case *ssa.DebugRef:
+					case *ssa.FieldAddr:
+						if f := core.FieldOf(t); f != nil && f.Name() == "Meta" {
+							kept = true // the caller looks at the node's Meta (to move its comments)
+						} else {
+							childOnly++
+						}
+					case *ssa.BinOp: // nil comparison
+					default:
+						kept = true
+					}
+				}
+				if childOnly == 0 {
+					continue
+				}
+				n++
+				key := fmt.Sprintf("%s|result of %s", core.FnName(fn), cal.Name())
+				if kept {
+					c.Discharge("cmt.dropnode", key, in.Pos(), "the node itself is kept (stored, returned, passed on) or its Meta is read")
+				} else {
+					c.Report("cmt.dropnode", key, in.Pos(), fmt.Sprintf("%s takes only a child out of the node returned by %s and discards the node: the comments in front of that node's first token (held in its Meta) are lost in the parser", core.FnName(fn), cal.Name()))
+				}
+			}
+		}
+	}
+	c.Extra("parsed_nodes_used_for_a_child", n)
+}
+
+// destructureMisses: printers that take a node apart (hand a child of it to another formatter function) without the
+// node's own fillable comment slots being read — by the printer itself on that node, or by every caller that passes
+// the node down.
+func (a *cmtAnalysis) destructureMisses(ws []cmtWrite) []string {
+	// fillable slots per node kind (exact owners) and for every expression (weak owner ~Expression)
+	fillable := map[string]map[string]bool{}
+	exprSlots := map[string]bool{}
+	for _, w := range ws {
+		if strings.Contains(w.owner, ".") || strings.Contains(w.owner, "[") {
+			continue
+		}
+		if w.owner == "~Expression" {
+			exprSlots[w.slot] = true
+			continue
+		}
+		if strings.HasPrefix(w.owner, "~") {
+			continue
+		}
+		if fillable[w.owner] == nil {
+			fillable[w.owner] = map[string]bool{}
+		}
+		fillable[w.owner][w.slot] = true
+	}
+	isExprKind := func(k string) bool {
+		return strings.HasSuffix(k, "Expression")
+	}
+	var ffuncs []*ssa.Function
+	for _, fn := range a.funcs {
+		if fn.Pkg != nil && fn.Pkg.Pkg.Path() == core.ModPath+"/formatter" {
+			ffuncs = append(ffuncs, fn)
+		}
+	}
+	inFmt := map[*ssa.Function]bool{}
+	for _, fn := range ffuncs {
+		inFmt[fn] = true
+	}
+	paramIdx := func(fn *ssa.Function, v ssa.Value) int {
+		for i, q := range fn.Params {
+			if ssa.Value(q) == v {
+				return i
+			}
+		}
+		return -1
+	}
+	// slots fn reads on (param i, path, narrowed kind)
+	readsOn := func(fn *ssa.Function, i int, path, kind string) map[string]bool {
+		out := map[string]bool{}
+		for e := range a.summaries[fn] {
+			if e.param != i {
+				continue
+			}
+			if e.path == path || e.path == "!"+kind+path {
+				out[e.slot] = true
+			}
+		}
+		return out
+	}
+	type key struct {
+		fn *ssa.Function
+		i  int
+	}
+	// caller coverage: greatest fixpoint
+	allSlots := []string{"Leading", "Trailing", "Infix"}
+	cov := map[key]map[string]bool{}
+	hasCaller := map[key]bool{}
+	type site struct {
+		g    *ssa.Function
+		qi   int
+		path string
+		kind string
+		f    *ssa.Function
+		pi   int
+	}
+	var sites []site
+	for _, g := range ffuncs {
+		for _, b := range g.Blocks {
+			for _, in := range b.Instrs {
+				call, ok := in.(ssa.CallInstruction)
+				if !ok {
+					continue
+				}
+				f := call.Common().StaticCallee()
+				if f == nil || !inFmt[f] {
+					continue
+				}
+				for pi, arg := range call.Common().Args {
+					if pi >= len(f.Params) || astNodeName(f.Params[pi].Type()) == "" && !strings.HasPrefix(core.NamedTypePkgName(f.Params[pi].Type()), astPkgPath+".") {
+						continue
+					}
+					for _, d := range a.descsNode(arg, b, map[ssa.Value]bool{}) {
+						if d.root == nil {
+							continue
+						}
+						qi := paramIdx(g, d.root)
+						if qi < 0 {
+							continue
+						}
+						kind := d.narrow
+						if kind == "" {
+							kind = astNodeName(d.root.Type())
+						}
+						sites = append(sites, site{g, qi, d.path, kind, f, pi})
+						hasCaller[key{f, pi}] = true
+					}
+				}
+			}
+		}
+	}
+	for _, fn := range ffuncs {
+		for i := range fn.Params {
+			k := key{fn, i}
+			cov[k] = map[string]bool{}
+			if hasCaller[k] {
+				for _, s := range allSlots {
+					cov[k][s] = true
+				}
+			}
+		}
+	}
+	for changed := true; changed; {
+		changed = false
+		for _, st := range sites {
+			have := readsOn(st.g, st.qi, st.path, st.kind)
+			if st.path == "" {
+				for s := range cov[key{st.g, st.qi}] {
+					have[s] = true
+				}
+			}
+			k := key{st.f, st.pi}
+			for s := range cov[k] {
+				if !have[s] {
+					delete(cov[k], s)
+					changed = true
+				}
+			}
+		}
+	}
+	// destructuring sites
+	var out []string
+	seen := map[string]bool{}
+	for _, st := range sites {
+		if st.path == "" || st.kind == "" {
+			continue // the node itself is passed on, not a child
+		}
+		// st.g hands a child (st.path) of its node (param qi, kind) to st.f
+		if strings.Count(st.path, ".") != 1 {
+			continue
+		}
+		need := map[string]bool{}
+		for s := range fillable[st.kind] {
+			need[s] = true
+		}
+		if isExprKind(st.kind) {
+			for s := range exprSlots {
+				need[s] = true
+			}
+		}
+		have := readsOn(st.g, st.qi, "", st.kind)
+		for s := range cov[key{st.g, st.qi}] {
+			have[s] = true
+		}
+		for s := range need {
+			if !have[s] {
+				l := fmt.Sprintf("%s takes %s apart (passes %s on) but %s of the %s itself is read neither here nor by every caller", core.FnName(st.g), st.kind, st.path, s, st.kind)
+				if !seen[l] {
+					seen[l] = true
+					out = append(out, l)
+				}
+			}
+		}
+	}
+	sort.Strings(out)
+	return out
+}
+
+// listUnswappedTokens (experimental): token advances after which the comments in front of the new current token are not
+// moved anywhere before the window advances again.
+// tokenDrivers: functions whose advances land on a token that is handled by the next parser call or cannot carry
+// comments, one reason each.
+var tokenDrivers = map[string]string{
+	"ExpectPeek":      "the helper itself: its callers are the advance sites",
+	"ParseLongString": "advances over the pieces of one long-string literal; no comment can stand between them",
+	"Parse":           "driver: moves to the last token of a declaration, whose comments were moved by the declaration's parser",
+	"ParseStatement":  "driver: moves to the first token of a statement, which becomes the statement's Meta in every arm that parses one",
+	"ParseSnippetVCL": "driver: moves to the first token of the next statement / to EOF (comments at end of file have no slot in ast.VCL: not a documented placeholder)",
+}
+
+func listUnswappedTokens(c *core.Ctx) {
+	prog := c.Prog
+	nTok := 0
+	perFn := map[*ssa.Function]int{}
+	defer func() { c.Floor("cmt.token", 120); _ = nTok }()
+	isCurTokenLoad := func(v ssa.Value) bool {
+		ld, ok := v.(*ssa.UnOp)
+		if !ok || ld.Op != token.MUL {
+			return false
+		}
+		f := core.FieldOf(ld.X)
+		return f != nil && f.Name() == "curToken"
+	}
+	for _, fn := range prog.ModuleFuncs("parser") {
+		if fn.Signature.Recv() == nil || core.NamedTypeName(derefType(fn.Signature.Recv().Type())) != "Parser" {
+			continue
+		}
+		for _, b := range fn.Blocks {
+			for idx, in := range b.Instrs {
+				cal := core.StaticCallee(in)
+				if cal == nil || (cal.Name() != "ExpectPeek" && cal.Name() != "NextToken") {
+					continue
+				}
+				// idiom 1: the comments of the token about to become current were moved away while it was still the peek
+				// token: a Swap*(p.peekToken, …) since the previous advance
+				if peekSwappedBefore(b, idx) {
+					continue
+				}
+				// walk forward to the next advance / return
+				var bad string
+				seen := map[*ssa.BasicBlock]bool{}
+				var walk func(blk *ssa.BasicBlock, from int)
+				walk = func(blk *ssa.BasicBlock, from int) {
+					for _, i2 := range blk.Instrs[from:] {
+						c2 := core.StaticCallee(i2)
+						if ci, ok := i2.(ssa.CallInstruction); ok && c2 == nil {
+							if _, isBuiltin := ci.Common().Value.(*ssa.Builtin); !isBuiltin && !ci.Common().IsInvoke() {
+								return // a parser taken from the Pratt tables / a custom parser: it starts at the current token
+							}
+						}
+						if c2 != nil {
+							switch {
+							case strings.HasPrefix(c2.Name(), "SwapLeading"):
+								if call, ok := i2.(*ssa.Call); ok && isCurTokenLoad(call.Common().Args[0]) {
+									return
+								}
+							case strings.HasPrefix(c2.Name(), "Parse") || c2.Name() == "parseStatement" || c2.Name() == "Trailing":
+								return // the sub-parser starts at the current token, which becomes the Meta of its node
+							case c2.Name() == "ExpectPeek" || c2.Name() == "NextToken":
+								if bad == "" {
+									bad = prog.Loc(i2.Pos()) + " (next advance)"
+								}
+								return
+							}
+						}
+						if st, ok := i2.(*ssa.Store); ok && isCurTokenLoad(st.Val) {
+							return // Meta: p.curToken
+						}
+						if fa, ok := i2.(*ssa.FieldAddr); ok && isCurTokenLoad(fa.X) {
+							if f := core.FieldOf(fa); f != nil && f.Name() == "Leading" {
+								return // the comments are taken out explicitly
+							}
+						}
+						if r, ok := i2.(*ssa.Return); ok {
+							// returning with an error: the comments do not matter; otherwise the token is left unswapped
+							{
+								errRet := false
+								for _, rs := range core.ReturnSites(i2.Parent()) {
+									if rs.Ret == r && len(rs.Results) > 0 && !core.IsNilConst(rs.Results[len(rs.Results)-1]) && core.IsErrorType(rs.Results[len(rs.Results)-1].Type()) {
+										errRet = true
+									}
+								}
+								if !errRet && bad == "" && !callersSwapCurToken(prog, i2.Parent(), isCurTokenLoad) {
+									bad = prog.Loc(i2.Pos()) + " (return, and a caller does not move them either)"
+								}
+							}
+							return
+						}
+					}
+					for _, s := range blk.Succs {
+						if !seen[s] {
+							seen[s] = true
+							walk(s, 0)
+						}
+					}
+				}
+				if cal.Name() == "ExpectPeek" {
+					// only the success edge advances the window
+					started := false
+					if cv, ok := in.(ssa.Value); ok && cv.Referrers() != nil {
+						for _, r := range *cv.Referrers() {
+							if iff, ok := r.(*ssa.If); ok {
+								seen[iff.Block().Succs[0]] = true
+								walk(iff.Block().Succs[0], 0)
+								started = true
+							}
+						}
+					}
+					if !started {
+						walk(b, idx+1)
+					}
+				} else {
+					walk(b, idx+1)
+				}
+				nTok++
+				perFn[fn]++
+				key := fmt.Sprintf("%s|%s#%d", core.FnName(fn), cal.Name(), perFn[fn])
+				switch {
+				case bad == "":
+					c.Discharge("cmt.token", key, in.Pos(), "the comments in front of the new current token are moved, or the token starts a sub-parse")
+				case tokenDrivers[fn.Name()] != "":
+					c.Discharge("cmt.token", key, in.Pos(), "named exception: "+tokenDrivers[fn.Name()])
+				default:
+					c.Report("cmt.token", key, in.Pos(), fmt.Sprintf("%s advances onto a token at %s and the window moves on (%s) without the comments in front of that token being moved to a node (no Swap* of p.curToken, no earlier Swap* of p.peekToken, the token does not become a node): a comment written there is lost in the parser", core.FnName(fn), prog.Loc(in.Pos()), bad))
+				}
+			}
+		}
+	}
+}
+
+// callersSwapCurToken: fn returns with the window on a token whose comments it did not move; the obligation passes to
+// its callers. Decided as "every static caller has, after the call and before its next advance, a Swap*(p.curToken, …)
+// on some path" - the paths are not correlated with the callee's return site, so this is the may-form: it reports a
+// caller that never moves them, not one that moves them under the wrong condition.
+func callersSwapCurToken(prog *core.Program, fn *ssa.Function, isCurTokenLoad func(ssa.Value) bool) bool {
+	callers := 0
+	for _, g := range prog.ModuleFuncs("parser") {
+		for _, b := range g.Blocks {
+			for idx, in := range b.Instrs {
+				if core.StaticCallee(in) != fn {
+					continue
+				}
+				callers++
+				found := false
+				seen := map[*ssa.BasicBlock]bool{}
+				var walk func(blk *ssa.BasicBlock, from int)
+				walk = func(blk *ssa.BasicBlock, from int) {
+					for _, i2 := range blk.Instrs[from:] {
+						if c2 := core.StaticCallee(i2); c2 != nil {
+							if strings.HasPrefix(c2.Name(), "SwapLeading") {
+								if call, ok := i2.(*ssa.Call); ok && isCurTokenLoad(call.Common().Args[0]) {
+									found = true
+								}
+								continue
+							}
+							if c2.Name() == "ExpectPeek" || c2.Name() == "NextToken" || strings.HasPrefix(c2.Name(), "Parse") {
+								return
+							}
+						}
+					}
+					for _, s := range blk.Succs {
+						if !seen[s] {
+							seen[s] = true
+							walk(s, 0)
+						}
+					}
+				}
+				walk(b, idx+1)
+				if !found {
+					return false
+				}
+			}
+		}
+	}
+	return callers > 0
+}
+
+// peekSwappedBefore: walking backwards from instruction idx of block b, a Swap*(p.peekToken, …) call is met before any
+// other token advance (on every path: the walk follows single predecessors only).
+func peekSwappedBefore(b *ssa.BasicBlock, idx int) bool {
+	isPeekLoad := func(v ssa.Value) bool {
+		ld, ok := v.(*ssa.UnOp)
+		if !ok || ld.Op != token.MUL {
+			return false
+		}
+		f := core.FieldOf(ld.X)
+		return f != nil && f.Name() == "peekToken"
+	}
+	blk, from := b, idx-1
+	sawSemicolonTest := false
+	for steps := 0; steps < 8; steps++ {
+		for i := from; i >= 0; i-- {
+			in := blk.Instrs[i]
+			cal := core.StaticCallee(in)
+			if cal == nil {
+				continue
+			}
+			if strings.HasPrefix(cal.Name(), "SwapLeading") {
+				if call, ok := in.(*ssa.Call); ok && isPeekLoad(call.Common().Args[0]) {
+					return true
+				}
+			}
+			if cal.Name() == "PeekTokenIs" {
+				if call, ok := in.(*ssa.Call); ok {
+					if k, ok := call.Common().Args[1].(*ssa.Const); ok && k.Value != nil && strings.Contains(k.Value.ExactString(), "SEMICOLON") {
+						sawSemicolonTest = true
+					}
+				}
+				continue
+			}
+			if cal.Name() == "ParseExpression" && sawSemicolonTest {
+				return true // ParseExpression moves the comments in front of a following semicolon to the expression
+			}
+			if cal.Name() == "ExpectPeek" || cal.Name() == "NextToken" || strings.HasPrefix(cal.Name(), "Parse") {
+				return false
+			}
+		}
+		if len(blk.Preds) != 1 {
+			return false
+		}
+		blk = blk.Preds[0]
+		from = len(blk.Instrs) - 1
 	}
 	return false
 }
